@@ -96,7 +96,8 @@ def impl_init():
         o = c["o"]
         vals = dict(min_timestamp_scale=o["min_sc"][0] / o["min_sc"][1], max_timestamp_scale=o["max_sc"][0] / o["max_sc"][1],
                     min_timestamp_wait=o["min_wait"], max_timestamp_wait=o["max_wait"], timestamp_grace=o["grace"])
-        clock["ns"] = 1_700_000_000_000_000_000
+        # the clock starts somewhere else in every case: a receive time that is not taken when the signature is built shows up
+        clock["ns"] = 1_700_000_000_000_000_000 + ((c["ts"] * 7919 + c["ms"] * 31 + c["last"]) % 10_000_000) * 1_000_000
         lastp = U.scapy_from_spec(spec_of(2, c["last"], c["last_has_ts"], False))
         last = TCPPacketSignature.from_packet(parse_packet(lastp))
         clock["ns"] += c["ms"] * 1_000_000
